@@ -81,7 +81,7 @@ def make_files(ctx, rng, n, skew=False, tag='f', spec=None):
 			if exp and tuple(exp) not in seen:
 				seen.add(tuple(exp))
 				break
-		gz = rng.random() < 0.3
+		gz = rng.choice([False, False, False, False, False, False, False, True, True, 'multi'])
 		p = ctx.workdir / f'{tag}{i}.fa{".gz" if gz else ""}'
 		write_fasta(p, contigs, width=rng.choice([0, 60, 80]), gz=gz)
 		files.append(SequenceFile(p, 'fasta', 'auto'))
